@@ -650,6 +650,33 @@ def run(ctx) -> None:
                            "unreadable (EIO, EACCES) the derived listing is empty, no IOError reaches updateLogs' handler, and '{}' is renamed "
                            "over a good output.json" % last_attr(c), construct="%s: parser filled from an open handle" % last_attr(c))
     ctx.floor("C14.R5-escape-agreement", n_back, 1, "parsers that read output.txt back to derive output.json")
+    # the free text of the listing (the key-output's description - `description: |` in the workflow gives several lines) is written so
+    # that the parser can read it back: every line after the first as a continuation line, or through an escaping helper (defect: the
+    # raw text made ConfigurationFileToJson raise ParsingError after output.txt had been renamed into place)
+    n_free = 0
+    for c in source.calls_in(ul):
+        if last_attr(c) != "write" or not c.args:
+            continue
+        a0 = c.args[0]
+        if not (isinstance(a0, ast.BinOp) and isinstance(a0.op, ast.Mod) and isinstance(a0.left, ast.Constant) and isinstance(a0.left.value, str)
+                and a0.left.value.startswith("description=")):
+            continue
+        n_free += 1
+        val = match.resolve_local(ul, a0.right) if isinstance(a0.right, ast.Name) else a0.right
+        protected = any(
+            isinstance(x, ast.Call) and (
+                (last_attr(x) == "replace" and len(x.args) == 2 and isinstance(x.args[0], ast.Constant) and x.args[0].value == "\n"
+                 and isinstance(x.args[1], ast.Constant) and isinstance(x.args[1].value, str)
+                 and (x.args[1].value[:1] != "\n" or x.args[1].value[1:2] in (" ", "\t")))
+                or any(w_ in (last_attr(x) or call_name(x) or "").lower() for w_ in ("escape", "quote", "dumps")))
+            for x in ast.walk(val))
+        ctx.ob("C14.R5-escape-agreement", c, protected,
+               "the description is written with its line breaks protected (%s)" % short(val, 60) if protected else
+               "updateLogs writes the free-text description verbatim (%s): a description of several lines puts a line without '=' into "
+               "output.txt, ConfigurationFileToJson raises ParsingError after output.txt was renamed into place, output.json is not written and "
+               "the description cannot be read back" % short(val, 50),
+               construct="updateLogs: description=<text with protected line breaks>")
+    ctx.require(n_free >= 1, "anchor missing: the write of the key-output description in OutputAgent.updateLogs")
     # what is written is the escaped value (not the raw one)
     writes = [c for c in source.calls_in(w) if last_attr(c) == "write"]
     ctx.ob("C14.R5-escape-agreement", w, bool(writes), "writeToStream writes through stream.write", construct="stream.write present", trivial=True)
